@@ -153,6 +153,13 @@ func (IdGen) Extra(tier string, seed int64) []orch.Case {
 	for i := range sps {
 		sps[i] = w.NewSP()
 		sps[i].SignAuthnRequests = i%2 == 0
+		// the optional settings vary between the providers: none of them has any bearing on the identifier
+		sps[i].ForceAuthn = i == 1 || i == 3
+		sps[i].IsPassive = i == 2 || i == 3
+		if i == 3 {
+			sps[i].NameIdFormat = saml2.NameIdFormatTransient
+			sps[i].RequestedAuthnContext = &saml2.RequestedAuthnContext{Comparison: saml2.AuthnPolicyMatchMinimum, Contexts: []string{saml2.AuthnContextPasswordProtectedTransport}}
+		}
 	}
 	type rawEv struct {
 		kind  string
